@@ -455,7 +455,7 @@ func (r *vfGccRun) stats() {
 //     every onDelayUpdate, every SetTargetBitrate, every `go callback` statement - is finished; cap+2 such flushes
 //     cover a channel of capacity cap.  After Close the pipeline goroutines have been awaited by Close itself.
 //  2. callbacks are goroutines that have been started by then; they are done when as many callbacks as pacer calls
-//     have been logged (fast path) or when nothing new has been logged for a long quiet period (slow path: the log
+//     have been logged (fast path) or when nothing new has been logged for a 3 s quiet period (slow path: the log
 //     is then left as it is and the validator decides).
 // If activity never stops the script is marked inconclusive.
 func (r *vfGccRun) quiesce() {
@@ -467,15 +467,17 @@ func (r *vfGccRun) quiesce() {
 			break
 		}
 	}
-	quiet := 1500 * time.Millisecond
-	if r.sc.Pacer == "default" {
-		quiet = 250 * time.Millisecond // no pacer record to compare with: always the slow path
-	}
+	// slow path only: a spawned goroutine that has not run for this long while this goroutine kept running is not
+	// a matter of scheduling any more
+	quiet := 3 * time.Second
 	start := time.Now()
 	for {
 		np, ncb, last := r.lg.counts()
 		if r.sc.Pacer != "default" && np == ncb {
 			break
+		}
+		if r.sc.Pacer == "default" && r.seenByCallback(r.d.get(), ncb) {
+			break // no pacer record to compare with: the callback announcing the current target has run
 		}
 		ref := last
 		if ref.Before(start) {
@@ -496,6 +498,22 @@ func (r *vfGccRun) quiesce() {
 	hi, ncb, _ := r.lg.counts()
 	r.lg.add(vfM{"a": "quiesce", "get": vfGccInt(v), "lo": lo, "hi": hi, "ncb": ncb, "leaky": vfGccInt(r.d.leakyRate()),
 		"flush": fl})
+}
+
+// seenByCallback: v is the initial bitrate and no callback ran, or some callback ran with v.
+func (r *vfGccRun) seenByCallback(v, ncb int) bool {
+	if ncb == 0 {
+		return v == r.sc.Init
+	}
+	r.lg.mu.Lock()
+	defer r.lg.mu.Unlock()
+	for _, e := range r.lg.ev {
+		if e["a"] == "cb" && e["v"] == vfGccInt(v) {
+			return true
+		}
+	}
+
+	return false
 }
 
 func (r *vfGccRun) close() {
